@@ -5,14 +5,14 @@ import os, collections
 from vlib import *
 
 EXTRACT = '''From Coq Require Import Extraction ExtrOcamlBasic.
-Require Import Num Vec Tree MB Spatial MBRun.
+Require Import Num Vec Tree MB Spatial MBRun C04_Bias.
 Extraction Language OCaml.
-Extraction "mbrun.ml" mkTree out_vel out_jw out_jtf out_bias out_acc out_mw out_mcol out_ke2 frame_of station_force frame_force out_jt_custom mkBx mkNode.
+Extraction "mbrun.ml" mkTree out_vel out_jw out_jtf out_bias out_acc out_mw out_mcol out_ke2 frame_of station_force frame_force out_jt_custom frame_acc mkBx mkNode.
 '''
 
 def build(ctx):
     d = ctx.bdir('mb'); os.makedirs(d, exist_ok=True)
-    ok, built, log = ctx.coq_make(['Lib/MBRun.vo'])
+    ok, built, log = ctx.coq_make(['Lib/MBRun.vo', 'C04/C04_Bias.vo'])
     if not ok:
         ctx.broken.append(('model:Lib/MBRun.v', first_error(log))); return None
     if not ctx.extract(EXTRACT, d):
@@ -38,7 +38,7 @@ def parse(out):
         elif cur is None: continue
         elif t[0] == 'OUT':
             tag = t[1]
-            if tag in ('VEL', 'JW', 'BIAS', 'ACC', 'STJ', 'FRJ', 'JMATW', 'MROW'):
+            if tag in ('VEL', 'JW', 'BIAS', 'ACC', 'STJ', 'FRJ', 'STB', 'FRB', 'JMATW', 'MROW'):
                 cur['outs'][(tag, int(t[2]))] = parse_floats(' '.join(t[3:]))
             else:
                 cur['outs'][(tag, 0)] = parse_floats(' '.join(t[2:]))
